@@ -19,7 +19,7 @@ from pyvc.heap import DEFPOW, FACT, POW
 from pyvc.interp import Interp, PathState
 from pyvc.values import NAN, DictObj, IdStr, Num, Obj, OutOfSubset, PyRaise, b_and, b_not, zbool, zreal
 
-from .common import REPO, Result, load_known, match_known, run_venv
+from .common import REPO, Result, load_known, match_known, run_venv, tierb_json
 
 BINARY_OPS = ["AddExpression", "SubtractExpression", "MultiplyExpression", "DivideExpression", "PowerExpression", "EqualExpression"]
 UNARY_OPS = ["NegateExpression", "AbsExpression", "SgnExpression", "FactorialExpression"]
@@ -299,7 +299,7 @@ def run(tier: str, seed: int) -> int:
     if p.returncode not in (0, 1):
         R.engine_errors.append("tier-B failed: " + p.stderr[-300:])
     else:
-        bounded = json.loads(p.stdout)
+        bounded = tierb_json(p, R)
         for f in bounded.get("failures", []):
             k = match_known(known, "C05", {"cfg": "tierb", "clause": f["clause"], "shape": {}, "cases": [], "detail": f["detail"]})
             if k is not None:
